@@ -25,7 +25,7 @@ for d in sys.argv[1:]:
             print('SKIP (does not apply)',d); continue
         new=sorted(failing(tmp)-base)
         if new:
-            bad+=1; print('FALSE-ALARM',d); [print('    ',k[:200]) for k in new[:8]]
+            bad+=1; print('FALSE-ALARM',d); [print('    ',k[:200]) for k in new[:60]]
         else: print('quiet      ',d)
     finally: shutil.rmtree(tmp)
 sys.exit(1 if bad else 0)
